@@ -189,29 +189,46 @@ func shapeProblem(text string) string {
 	return ""
 }
 
-// depthProblem checks on the re-parsed formatted text that every statement
-// starts at column 4*depth+1 and that every line the statement spans (multi-line
-// literals) is indented at least 4*depth.
-func depthProblem(formatted string, prog *parser.Program) string {
+// continuationProblem checks, with the real lexer, that every line that starts
+// inside an open bracket (a continuation line of a multi-line array / map
+// literal) is indented at least as far as the line its statement starts on.
+func continuationProblem(formatted string) string {
 	lines := strings.Split(formatted, "\n")
-	indentOf := func(i int) int {
-		if i < 0 || i >= len(lines) {
+	indent := func(line int) int { // 1-based
+		if line-1 >= len(lines) {
 			return -1
 		}
-		return len(lines[i]) - len(strings.TrimLeft(lines[i], " "))
+		return len(lines[line-1]) - len(strings.TrimLeft(lines[line-1], " "))
 	}
-	var problem string
-	var walk func(stmts []parser.Node, depth int, endLine int)
-	spanCheck := func(from, to, depth int) {
-		for l := from; l <= to && l-1 < len(lines); l++ {
-			if strings.TrimSpace(lines[l-1]) == "" {
-				continue
+	l := lexer.New(formatted)
+	nest, stmtIndent := 0, indent(1)
+	for {
+		t := l.Next()
+		switch t.Type {
+		case lexer.EOF:
+			return ""
+		case lexer.LBRACKET, lexer.LCURLY, lexer.LPAREN:
+			nest++
+		case lexer.RBRACKET, lexer.RCURLY, lexer.RPAREN:
+			if nest > 0 {
+				nest--
 			}
-			if indentOf(l-1) < 4*depth && problem == "" {
-				problem = "continuation-line-less-indented-than-its-statement"
+		case lexer.NL:
+			if nest == 0 {
+				stmtIndent = indent(t.Line + 1) // the next line starts a statement
+			} else if t.Line < len(lines) && strings.TrimSpace(lines[t.Line]) != "" && indent(t.Line+1) < stmtIndent {
+				return "continuation-line-less-indented-than-its-statement"
 			}
 		}
 	}
+}
+
+// depthProblem checks on the re-parsed formatted text that every statement
+// (and every comment line) starts at column 4*depth+1.
+func depthProblem(formatted string, prog *parser.Program) string {
+	lines := strings.Split(formatted, "\n")
+	var problem string
+	var walk func(stmts []parser.Node, depth int, endLine int)
 	walk = func(stmts []parser.Node, depth int, endLine int) {
 		for i, s := range stmts {
 			tok := s.Token()
@@ -250,7 +267,6 @@ func depthProblem(formatted string, prog *parser.Program) string {
 			case *parser.EventHandlerStmt:
 				walk(n.Body.Statements, depth+1, last)
 			}
-			spanCheck(tok.Line, last, depth)
 		}
 	}
 	walk(prog.Statements, 0, len(lines))
